@@ -261,7 +261,7 @@ func wfFacts(t Term, depth int) []string {
 	}
 	switch t.Sort.Kind {
 	case KSlice:
-		return []string{sx(">=", slLen(t).S, "0")}
+		return []string{sx(">=", slLen(t).S, "0"), sx("<=", slLen(t).S, "9223372036854775807")} // a Go length is an int
 	case KStruct:
 		var out []string
 		for _, f := range t.Sort.Fields {
